@@ -6,6 +6,10 @@ WORDS = ['foo', 'bar', 'x', 'the quick', 'a b', '(a)', '1.', '2', 'Section', 'pa
          # not in Unicode normal form C / compatibility characters / separators that are not line breaks for the grammar
          # a backslash where layout begins: at the end of a word (followed by trailing spaces or the line end), doubled, before a tab
          'foo\\', 'C:\\temp\\\\', '\\', 'a\\ b',
+         # lines that are words to pre_parse whatever they mean to the grammar: whole keyword lines, container keywords on their own (at any
+         # indentation), dashes of every kind between blanks, an escaped blank at the start
+         'PART 1 -- General', 'SEC 2 \u2013 Title', 'NOTE \u2014 x', 'BODY', 'DECISION', 'PREFACE', 'INTRODUCTION', 'CONCLUSIONS', 'PREAMBLE', 'BACKGROUND',
+         '\\ \\x', '\\  - h', 'a -- b', 'SEC 1\ttab',
          '90 \u212a', 'cafe\u0301', '\u2126', '\ufb01n', 'a\u2028b', 'c\u0085d', '\ufeff', 'x\u200by']
 
 def indentation_sequences(max_lines, widths):
